@@ -82,6 +82,35 @@ def finish (dflt : R) : Res V R → Option (V × R)
   | .ret v r => some (v, r)
   | _ => none
 
+/-! ### closures handed to `traverse` as callbacks
+
+A nested function / lambda of the source is translated to `S → Int → … → Option (S × R)` where `S` holds the captured variables it
+reads and writes (`none` = it raised).  The traversal takes total state-passing callbacks, so the state handed to it is `Option S`:
+once a callback has raised, the state stays `none` and the call as a whole raises (`unwrapCb`). -/
+
+def wrapE {S T : Type} [Inhabited T] (f : S → Int → Option T → Option (S × T)) : Option S → Int → Option T → Option S × T :=
+  fun s n pv => match s with
+    | none => (none, default)
+    | some st => match f st n pv with
+      | none => (none, default)
+      | some r => (some r.1, r.2)
+
+def wrapL {S K : Type} [Inhabited K] (f : S → Int → List K → Option (S × K)) : Option S → Int → List K → Option S × K :=
+  fun s n ks => match s with
+    | none => (none, default)
+    | some st => match f st n ks with
+      | none => (none, default)
+      | some r => (some r.1, r.2)
+
+/-- an absent callback -/
+def noEnter {S : Type} : S → Int → Option Unit → Option (S × Unit) := fun s _ _ => some (s, ())
+def noLeave {S : Type} : S → Int → List Unit → Option (S × Unit) := fun s _ _ => some (s, ())
+
+def unwrapCb {S K : Type} (r : Option (Option S × K)) : Option (S × K) :=
+  match r with
+  | some (some s, k) => some (s, k)
+  | _ => none
+
 /-! ### lists (Python `list` / 1-d numpy arrays) -/
 
 /-- normalise a Python index -/
